@@ -3617,6 +3617,12 @@ func restartSubtree(ctx context.Context, node *restartNode, parent *PID, tree *t
 		runtime.Gosched()
 	}
 
+	// Drop a stale scheduling mark now, while the actor is stopped and no
+	// worker owns it. Doing it after init() (which accepts messages again)
+	// could overwrite the Processing mark of a worker already running a turn
+	// of the restarted actor and let a second worker run it concurrently.
+	pid.schedState.v.CompareAndSwap(dispatchScheduled, dispatchIdle)
+
 	pid.resetBehavior()
 	if err := pid.init(ctx); err != nil {
 		return err
@@ -3650,7 +3656,6 @@ func restartSubtree(ctx context.Context, node *restartNode, parent *PID, tree *t
 		return fmt.Errorf("actor=(%s) failed to restart: %w", pid.Name(), err)
 	}
 
-	pid.schedState.reset()
 	pid.setState(suspendedState, false)
 	pid.startPassivation()
 
